@@ -222,6 +222,7 @@ const (
 	CapHalf           // about half of the key space
 	CapAll            // everything fits with a wide margin
 	CapExactly        // exactly the sum of key costs
+	CapHuge           // MaxCost at the far end of int64 (the 'unlimited' idiom), costs of 2^59..2^63
 )
 
 const itemSizeGuess = 56 // only used to scale generated costs; oracles measure, never copy
@@ -253,7 +254,7 @@ func init() {
 	// C03/C09: capacity pressure
 	add(&profile{name: "capacity", clientsLo: 1, clientsHi: 4, opsLo: 10, opsHi: 40, keysLo: 6, keysHi: 16,
 		mix:     mix{get: 40, set: 35, setTTL: 3, del: 5, wait: 5, upmax: 2, reads: 3, yield: 2, setRoom: 12, clear: 1},
-		capMode: []int{CapFew, CapFew, CapHalf, CapTiny, CapExactly}, bufSmall: 300, collide: 0, strKeys: 100,
+		capMode: []int{CapFew, CapFew, CapFew, CapHalf, CapHalf, CapTiny, CapTiny, CapExactly, CapExactly, CapHuge}, bufSmall: 300, collide: 0, strKeys: 100,
 		pClockLo: 0, pClockHi: 20, costFn: 300, metricsPM: 500, epilogue: "std", quiescePM: 60, costMono: 500, starveAppl: 100})
 	// C05: deletes racing buffered inserts on a focus key
 	add(&profile{name: "delete", clientsLo: 2, clientsHi: 4, opsLo: 6, opsHi: 25, keysLo: 2, keysHi: 5, focusKeys: 1,
@@ -450,6 +451,13 @@ func GenPlan(profName string, seed uint64) *Plan {
 	case CapAll:
 		c.MaxCost = 1 << 40
 		p.Flags.AllFits = true
+	case CapHuge:
+		// every sum the cache forms can wrap around here; the true totals still
+		// have to stay at or below MaxCost
+		c.MaxCost = g.pick64([]int64{math.MaxInt64, math.MaxInt64 - 1, math.MaxInt64 - 57, 3 << 61, 1<<62 + 7})
+		for i := range baseCost {
+			baseCost[i] = (1 << 59) * int64(g.rng(1, 12))
+		}
 	}
 	if c.CostFn && !mono {
 		// with a Cost function explicit costs are still used for part of the Sets
@@ -509,9 +517,13 @@ func GenPlan(profName string, seed uint64) *Plan {
 		case 1:
 			return c.MaxCost // exactly MaxCost
 		case 2:
-			return c.MaxCost + 1
+			if c.MaxCost < math.MaxInt64 {
+				return c.MaxCost + 1
+			}
 		case 3:
-			return baseCost[k] * 2
+			if baseCost[k] < 1<<61 {
+				return baseCost[k] * 2
+			}
 		case 4:
 			if c.MaxCost > intern+1 && c.MaxCost < 1<<30 {
 				return c.MaxCost - intern + int64(g.rng(-1, 1))
